@@ -660,3 +660,31 @@ Definition step (d : doc) (o : op) : option err * doc :=
 
 Definition run (d : doc) (ops : list op) : doc :=
   fold_left (fun d o => snd (step d o)) ops d.
+
+(** * Re-reading the text of one paragraph (C05 read-back)
+
+    What tokenizer + parser make of the lines of a paragraph's own text: comment lines attach
+    to the field line or continuation line that follows them, a field line closes the field
+    before it.  [cur] = the field being read, [pend] = comment lines not yet attached.  A
+    blank line or comment lines left over at the end do not occur inside a paragraph's text. *)
+Fixpoint scan_fields (ls : list str) (cur : option field) (pend : str) : result (list field) :=
+  match ls with
+  | [] =>
+      if is_nil pend then Ok (match cur with Some f => [f] | None => [] end) else Err OtherError
+  | l :: ls' =>
+      match classify (match cur with Some _ => true | None => false end) l with
+      | LComment => scan_fields ls' cur (pend ++ l)
+      | LCont =>
+          match cur with
+          | Some f => scan_fields ls' (Some (mkF (f_comment f) (f_name f) (f_rest f ++ pend ++ l))) []
+          | None => Err ValueError
+          end
+      | LField n r =>
+          do rest <- scan_fields ls' (Some (mkF pend n r)) [];
+          Ok (match cur with Some f => f :: rest | None => rest end)
+      | LWs => Err OtherError
+      | LError => Err ValueError
+      end
+  end.
+
+Definition scan_para (text : str) : result (list field) := scan_fields (lf_lines text) None [].
